@@ -62,6 +62,15 @@ type wrap struct {
 func (w *wrap) Error() string { return w.msg }
 func (w *wrap) Unwrap() error { return w.in }
 
+// wrapCause wraps with the pkg/errors style Cause method; in may be nil (an error without a cause).
+type wrapCause struct {
+	msg string
+	in  error
+}
+
+func (w *wrapCause) Error() string { return w.msg }
+func (w *wrapCause) Cause() error  { return w.in }
+
 // script is what the handler does; the handler records what actually happened.
 type script struct {
 	recv   bool
@@ -501,6 +510,14 @@ func errorsUnderTest() map[string]error {
 		"code-str-other": codeStr{"m", "teapot"},
 		"code-str-empty": codeStr{"m", ""},
 		"code-both":      drpcerr.WithCode(codeStr{"m", "unavailable"}, 14),
+		// errors whose chain ends in a nil cause, under each way of wrapping
+		"nil-unwrap":          &wrap{"no inner", nil},
+		"nil-cause":           &wrapCause{"no cause", nil},
+		"wrapped-nil-cause":   &wrap{"outer", &wrapCause{"no cause", nil}},
+		"fmt-w-nil-cause":     fmt.Errorf("ctx: %w", &wrapCause{"no cause", nil}),
+		"coded-nil-cause":     drpcerr.WithCode(&wrapCause{"no cause", nil}, 9),
+		"cause-of-nil-unwrap": &wrapCause{"outer", &wrap{"no inner", nil}},
+		"cause-then-code-str": &wrapCause{"outer", codeStr{"inner", "not_found"}},
 	}
 	for code := range twirpTable {
 		out["twirp-"+code] = codeStr{"msg for " + code, code}
